@@ -123,7 +123,7 @@ fn select_core(s: &SelectSpec) -> Option<String> {
             None => {}
         }
         if let Some(a) = it.alias {
-            t.push_str(&format!(" AS {}", q(ITEM_ALIASES[a as usize % 4])));
+            t.push_str(&format!(" AS {}", q(item_alias(a))));
         }
         items.push(t);
     }
